@@ -319,9 +319,9 @@ pub fn def() -> PropDef {
         rule: "wire_out / wire_in: the case index enumerates every pair of grid lengths {0,1,2,254,255,256,257,8191,8192,8193,65535,65536,131071,131072,131073} as a 2-frame message and every single grid length, for each emitting (8) resp. receiving (7) socket kind; further indices draw 1..5 frames with grid/random lengths and, rarely, 1-4 MiB; each case runs through a real socket under drawn write/read segmentation and back-pressure; hello: all 9 socket types x identity {none, 1, 255 bytes} x {accepting, connecting}; every case is non-trivial (it judges one message or handshake); distinct = distinct (case, plan, schedule, transport)",
         assumptions: &["input space enumerated over the boundary grid only, sampled beyond it", "the tap oracle is an independent RFC-23 decoder and encoder sharing no code with the library"],
         strata: vec![
-            Stratum { name: "wire_out", quick: enumerated + 8_000, thorough: enumerated + 300_000, exhaustive: (false, false), run: wire_out, what: "socket -> wire, byte-exact against the reference encoder" },
-            Stratum { name: "wire_in", quick: enumerated_in + 8_000, thorough: enumerated_in + 300_000, exhaustive: (false, false), run: wire_in, what: "reference-encoded wire -> recv" },
-            Stratum { name: "hello", quick: 54 * 40, thorough: 54 * 2000, exhaustive: (true, true), run: hello, what: "greeting and READY of every socket type / identity option / side" },
+            Stratum { name: "wire_out", quick: enumerated + 8_000, thorough: (enumerated + 300_000) * 5, exhaustive: (false, false), run: wire_out, what: "socket -> wire, byte-exact against the reference encoder" },
+            Stratum { name: "wire_in", quick: enumerated_in + 8_000, thorough: (enumerated_in + 300_000) * 5, exhaustive: (false, false), run: wire_in, what: "reference-encoded wire -> recv" },
+            Stratum { name: "hello", quick: 54 * 40, thorough: (54 * 2000) * 5, exhaustive: (true, true), run: hello, what: "greeting and READY of every socket type / identity option / side" },
         ],
     }
 }
